@@ -71,7 +71,7 @@ Definition eval_z (dim order k n : N) (codes : list (list N)) (permN : list N) (
   let nn := N.to_nat n in
   let perm := map N.to_nat permN in
   (* the quadrant oracle, from the codes the run recorded along each point's own path *)
-  let q := fun (path : list N) (i : nat) => nth (length path) (nth i codes []) 0%N in
+  let q := oracle_of_codes codes in
   let model := zcurve zcurve_chunk_guard nq maxo q sort_by_key o kk nn p0 in
   let in_contract := Nat.eqb (length p0) nn && (1 <=? kk) && (o <=? maxo) in
   let codes_ok :=
